@@ -192,6 +192,27 @@ impl Prop for C13 {
                 reqs.push(r);
                 continue;
             }
+            // 1 in 4: a request whose signature a function type of the PARSED module already has (a plain request de-duplicates
+            // against it when that type is final, unshared and has no supertype; in every case the returned index must hold the request)
+            if rng.chance(1, 4) {
+                let sigs: Vec<(Vec<DataType>, Vec<DataType>)> = g
+                    .types
+                    .iter()
+                    .filter_map(|t| match t {
+                        gen::TyInfo::Func(p, r) => {
+                            let pp: Option<Vec<DataType>> = p.iter().map(|t| crate::edit::vt_dt(*t)).collect();
+                            let rr: Option<Vec<DataType>> = r.iter().map(|t| crate::edit::vt_dt(*t)).collect();
+                            Some((pp?, rr?))
+                        }
+                        _ => None,
+                    })
+                    .collect();
+                if !sigs.is_empty() {
+                    let (p, r) = rng.pick(&sigs).clone();
+                    reqs.push(Req::Func { p, r, sup: None, fin: true, shared: false, plain: true });
+                    continue;
+                }
+            }
             let fin = rng.chance(3, 4);
             let shared = rng.chance(1, 8);
             let plain = rng.chance(1, 3);
